@@ -23,6 +23,9 @@ _RealLock = threading.Lock
 _RealRLock = threading.RLock
 _RealEvent = threading.Event
 _RealThread = threading.Thread
+_RealCondition = threading.Condition
+_RealSemaphore = threading.Semaphore
+_RealBoundedSemaphore = threading.BoundedSemaphore
 
 WATCHDOG_S = 180.0
 TOOL_ID = 4  # sys.monitoring tool id (0 debugger, 1 coverage, 2 profiler, 5 optimizer)
@@ -600,6 +603,151 @@ class SimRLock:
         self.release()
 
 
+class SimEvent:
+    """threading.Event for hdc-created events: wait() parks inside the simulator."""
+
+    def __init__(self):
+        self._real = _RealEvent()
+        self._flag = False
+
+    def is_set(self):
+        return self._flag or self._real.is_set()
+
+    isSet = is_set
+
+    def set(self):
+        self._flag = True
+        self._real.set()
+        sim = current_sim()
+        if sim is not None:
+            sim.yield_point(("event-set",))
+
+    def clear(self):
+        self._flag = False
+        self._real.clear()
+
+    def wait(self, timeout=None):
+        sim = current_sim()
+        if sim is None:
+            return self._real.wait(timeout)
+        sim.yield_point(("event-wait",))
+        if not self._flag:
+            if timeout is not None:
+                # simulated time does not exist: a timed wait either finds the flag or times out,
+                # decided by the chooser (both are legal outcomes of a real timed wait)
+                if sim.flip("event-timeout", 0.3):
+                    return self._flag
+            sim.probe("simevent_waited")
+            sim.block("event", lambda: self._flag)
+        return True
+
+
+class SimCondition:
+    """threading.Condition over a SimLock/SimRLock (or its own SimRLock)."""
+
+    def __init__(self, lock=None):
+        self._lock = lock if lock is not None else SimRLock()
+        self._waiters = []
+        self.acquire = self._lock.acquire
+        self.release = self._lock.release
+        # outside a simulation (real threads, e.g. Workload D) behave exactly like a real Condition
+        # over the same underlying real lock the Sim lock delegates to
+        self._realcond = _RealCondition(self._lock._real)
+
+    def __enter__(self):
+        return self._lock.__enter__()
+
+    def __exit__(self, *a):
+        return self._lock.__exit__(*a)
+
+    def wait(self, timeout=None):
+        sim = current_sim()
+        if sim is None:
+            return self._realcond.wait(timeout)
+        token = [False]
+        self._waiters.append(token)
+        # release fully (RLock aware)
+        saved = None
+        if isinstance(self._lock, SimRLock):
+            saved = (self._lock._owner, self._lock._count)
+            self._lock._owner, self._lock._count = None, 0
+        else:
+            self._lock._held = False
+        sim.probe("simcondition_waited")
+        timed_out = False
+        if timeout is not None and sim.flip("condition-timeout", 0.3):
+            timed_out = True
+        else:
+            sim.block("condition", lambda: token[0])
+        if token in self._waiters:
+            self._waiters.remove(token)
+        # re-acquire
+        if isinstance(self._lock, SimRLock):
+            sim.block("condition-reacquire", lambda: self._lock._owner is None)
+            self._lock._owner, self._lock._count = saved
+        else:
+            sim.block("condition-reacquire", lambda: not self._lock._held)
+            self._lock._held = True
+        return not timed_out
+
+    def wait_for(self, predicate, timeout=None):
+        result = predicate()
+        while not result:
+            if not self.wait(timeout) and timeout is not None:
+                return predicate()
+            result = predicate()
+        return result
+
+    def notify(self, n=1):
+        if current_sim() is None:
+            self._realcond.notify(n)
+            return
+        for token in self._waiters[:n]:
+            token[0] = True
+        del self._waiters[:n]
+
+    def notify_all(self):
+        if current_sim() is None:
+            self._realcond.notify_all()
+            return
+        self.notify(len(self._waiters))
+
+    notifyAll = notify_all
+
+
+class SimSemaphore:
+    def __init__(self, value=1):
+        self._value = value
+        self._real = _RealSemaphore(value)  # used by real threads outside a simulation
+
+    def acquire(self, blocking=True, timeout=None):
+        sim = current_sim()
+        if sim is None:
+            return self._real.acquire(blocking, timeout)
+        sim.yield_point(("sem-acquire",))
+        if self._value <= 0:
+            if not blocking:
+                return False
+            sim.block("semaphore", lambda: self._value > 0)
+        self._value -= 1
+        return True
+
+    def release(self, n=1):
+        sim = current_sim()
+        if sim is None:
+            self._real.release(n)
+            return
+        self._value += n
+        sim.yield_point(("sem-release",))
+
+    def __enter__(self):
+        self.acquire()
+        return self
+
+    def __exit__(self, *a):
+        self.release()
+
+
 def _caller_is_hdc(depth=2):
     try:
         f = sys._getframe(depth)
@@ -621,8 +769,50 @@ def _rlock_factory(*a, **k):
     return _RealRLock(*a, **k)
 
 
+class _SeamMeta(type):
+    """Makes ``isinstance(x, threading.Event)`` etc. keep working for both flavours."""
+
+    def __instancecheck__(cls, obj):
+        return isinstance(obj, cls._flavours)
+
+
+class _EventSeam(metaclass=_SeamMeta):
+    _flavours = (_RealEvent, SimEvent)
+
+    def __new__(cls, *a, **k):
+        return SimEvent() if _caller_is_hdc() else _RealEvent(*a, **k)
+
+
+class _ConditionSeam(metaclass=_SeamMeta):
+    _flavours = (_RealCondition, SimCondition)
+
+    def __new__(cls, lock=None):
+        if _caller_is_hdc() or isinstance(lock, (SimLock, SimRLock)):
+            return SimCondition(lock)
+        return _RealCondition(lock)
+
+
+class _SemaphoreSeam(metaclass=_SeamMeta):
+    _flavours = (_RealSemaphore, SimSemaphore)
+
+    def __new__(cls, value=1):
+        return SimSemaphore(value) if _caller_is_hdc() else _RealSemaphore(value)
+
+
+class _BoundedSemaphoreSeam(metaclass=_SeamMeta):
+    _flavours = (_RealBoundedSemaphore, SimSemaphore)
+
+    def __new__(cls, value=1):
+        return SimSemaphore(value) if _caller_is_hdc() else _RealBoundedSemaphore(value)
+
+
 def install_lock_seam():
-    """Locks created *by hdc modules* become simulator-aware; everyone else keeps real ones."""
+    """Synchronisation primitives created *by hdc modules* become simulator-aware; everyone else
+    keeps the real ones (Lock, RLock, Event, Condition, Semaphore, BoundedSemaphore)."""
     if threading.Lock is not _lock_factory:
         threading.Lock = _lock_factory
         threading.RLock = _rlock_factory
+        threading.Event = _EventSeam
+        threading.Condition = _ConditionSeam
+        threading.Semaphore = _SemaphoreSeam
+        threading.BoundedSemaphore = _BoundedSemaphoreSeam
